@@ -52,10 +52,10 @@ func Shrink(chk FullCheck, sc *Scenario, v *Violation, budget time.Duration) (*S
 	}
 	// 1. ddmin over steps
 	n := 2
-	for len(best.Steps) >= 2 && time.Now().Before(deadline) {
-		chunk := (len(best.Steps) + n - 1) / n
+	for len(best.Steps)-best.Fixed >= 2 && time.Now().Before(deadline) {
+		chunk := (len(best.Steps) - best.Fixed + n - 1) / n
 		reduced := false
-		for lo := 0; lo < len(best.Steps); lo += chunk {
+		for lo := best.Fixed; lo < len(best.Steps); lo += chunk {
 			hi := lo + chunk
 			if hi > len(best.Steps) {
 				hi = len(best.Steps)
@@ -73,8 +73,8 @@ func Shrink(chk FullCheck, sc *Scenario, v *Violation, budget time.Duration) (*S
 				break
 			}
 			n *= 2
-			if n > len(best.Steps) {
-				n = len(best.Steps)
+			if n > len(best.Steps)-best.Fixed {
+				n = len(best.Steps) - best.Fixed
 			}
 		}
 	}
